@@ -358,8 +358,18 @@ SetEidChecks(e, m) ==
 SetUuidChecks(e, m) == { Chk("C13", e.pre = Eids(m) /\ e.post = e.pre, FALSE, {}) }
 
 (* ------------------------------------------------------------------ *)
+(* the public header generators of either half: SMBus header with the byte count still zero, transport header *)
+GenHdrChecks(e, m) ==
+    { IF e.dst < 128 /\ m.addr < 128
+      THEN Chk("C04", e.res.kind = "ok" /\ e.smbus = << e.dst * 2, 15, 0, m.addr * 2 + 1 >>, TRUE, {})
+      ELSE Skip("C04"),
+      Chk("C05", /\ e.res.kind = "ok" /\ Len(e.transport) = 4
+                 /\ SubSeq(e.transport, 1, 3) = << 1, e.dst, m.addr >>
+                 /\ (IF e.half = "resp" THEN e.transport[4] \div 16 = 12 ELSE e.transport[4] = 200), TRUE, {}),
+      Chk("C13", e.pre = Eids(m) /\ e.post = e.pre, FALSE, {}) }
+
 HasCtx(e) == e.op \in {"set_uuid", "set_eid", "enc_req", "enc_resp", "enc_vendor", "enc_gen",
-                       "decode", "get_length", "process"}
+                       "decode", "get_length", "process", "gen_hdr"}
 
 ChecksM(e, m) ==
     CASE e.op = "new"        -> {}
@@ -369,6 +379,7 @@ ChecksM(e, m) ==
       [] e.op = "decode"     -> DecodeChecks(e, m)
       [] e.op = "process"    -> ProcessChecks(e, m)
       [] e.op = "get_length" -> GetLengthChecks(e, m)
+      [] e.op = "gen_hdr"    -> GenHdrChecks(e, m)
       [] e.op = "batch_get_length" -> BatchChecks(e)
       [] e.op \in {"hdr_get", "hdr_set", "hdr_from_buf", "hdr_new"} -> HeaderChecks(e)
       [] e.op = "conv"       -> ConvChecks(e)
